@@ -122,6 +122,9 @@ pub struct ShapeIterator<'a, T: Read, S: ReadableShape> {
     // Iterator over the shape indices, used to seek
     // to the start of a shape when reading
     shapes_indices: Option<std::slice::Iter<'a, ShapeIndex>>,
+    // Where the source has to be positioned before the first shape is read:
+    // a new iteration does not rely on where earlier calls left the source.
+    seek_to: Option<u64>,
 }
 
 impl<T: Read + Seek, S: ReadableShape> Iterator for ShapeIterator<'_, T, S> {
@@ -131,6 +134,11 @@ impl<T: Read + Seek, S: ReadableShape> Iterator for ShapeIterator<'_, T, S> {
         if self.current_pos >= self.file_length {
             None
         } else {
+            if let Some(pos) = self.seek_to.take() {
+                if let Err(err) = self.source.seek(SeekFrom::Start(pos)) {
+                    return Some(Err(err.into()));
+                }
+            }
             if let Some(ref mut shapes_indices) = self.shapes_indices {
                 // Its 'safer' to seek to the shape offset when we have the `shx` file
                 // as some shapes may not be stored sequentially and may contain 'garbage'
@@ -170,6 +178,8 @@ pub struct ShapeRecordIterator<
 > {
     shape_iter: ShapeIterator<'a, T, S>,
     record_iter: dbase::RecordIterator<'a, D, R>,
+    // Error met while positioning the records on the first shape of the iteration
+    pending_error: Option<dbase::Error>,
 }
 
 impl<T: Read + Seek, D: Read + Seek, S: ReadableShape, R: dbase::ReadableRecord> Iterator
@@ -178,6 +188,9 @@ impl<T: Read + Seek, D: Read + Seek, S: ReadableShape, R: dbase::ReadableRecord>
     type Item = Result<(S, R), Error>;
 
     fn next(&mut self) -> Option<Self::Item> {
+        if let Some(e) = self.pending_error.take() {
+            return Some(Err(Error::DbaseError(e)));
+        }
         let shape = match self.shape_iter.next()? {
             Err(e) => return Some(Err(e)),
             Ok(shp) => shp,
@@ -198,6 +211,9 @@ pub struct ShapeReader<T> {
     source: T,
     header: header::Header,
     shapes_index: Option<Vec<ShapeIndex>>,
+    // Index of the shape the last `seek` asked for, the next iteration starts there
+    // (otherwise an iteration starts at the first shape)
+    seeked_index: Option<usize>,
 }
 
 impl<T: Read> ShapeReader<T> {
@@ -230,6 +246,7 @@ impl<T: Read> ShapeReader<T> {
             source,
             header,
             shapes_index: None,
+            seeked_index: None,
         })
     }
 
@@ -260,6 +277,7 @@ impl<T: Read> ShapeReader<T> {
             source,
             header,
             shapes_index,
+            seeked_index: None,
         })
     }
 
@@ -351,12 +369,28 @@ impl<T: Read + Seek> ShapeReader<T> {
     /// # }
     /// ```
     pub fn iter_shapes_as<S: ReadableShape>(&mut self) -> ShapeIterator<'_, T, S> {
+        // The iteration starts at the shape `seek` was last called with, if any,
+        // and at the first shape of the file otherwise, wherever the source is now.
+        let first = self.seeked_index.take().unwrap_or(0);
+        let file_length = (self.header.file_length as usize) * 2;
+        let (start_pos, shapes_indices) = match self.shapes_index.as_ref() {
+            Some(index) => {
+                let remaining = &index[first.min(index.len())..];
+                let start_pos = remaining
+                    .first()
+                    .map(|shape_idx| (shape_idx.offset as usize).wrapping_mul(2))
+                    .unwrap_or(file_length);
+                (start_pos, Some(remaining.iter()))
+            }
+            None => (header::HEADER_SIZE as usize, None),
+        };
         ShapeIterator {
             _shape: std::marker::PhantomData,
             source: &mut self.source,
-            current_pos: header::HEADER_SIZE as usize,
-            file_length: (self.header.file_length as usize) * 2,
-            shapes_indices: self.shapes_index.as_ref().map(|s| s.iter()),
+            current_pos: start_pos,
+            file_length,
+            shapes_indices,
+            seek_to: Some(start_pos as u64),
         }
     }
 
@@ -433,6 +467,7 @@ impl<T: Read + Seek> ShapeReader<T> {
             {
                 return Some(Err(Error::IoError(e)));
             }
+            self.seeked_index = None;
             Some(Ok(shape))
         } else {
             Some(Err(Error::MissingIndexFile))
@@ -461,6 +496,7 @@ impl<T: Read + Seek> ShapeReader<T> {
                 Some(n) => self.source.seek(SeekFrom::Start(n)),
                 None => self.source.seek(SeekFrom::End(0)),
             }?;
+            self.seeked_index = Some(index.min(shapes_index.len()));
             Ok(())
         } else {
             Err(Error::MissingIndexFile)
@@ -544,9 +580,13 @@ impl<T: Read + Seek, D: Read + Seek> Reader<T, D> {
     pub fn iter_shapes_and_records_as<S: ReadableShape, R: dbase::ReadableRecord>(
         &mut self,
     ) -> ShapeRecordIterator<'_, T, D, S, R> {
+        // The records are read from the one that goes with the first shape of the iteration
+        let first = self.shape_reader.seeked_index.unwrap_or(0);
+        let pending_error = self.dbase_reader.seek(first).err();
         ShapeRecordIterator {
             shape_iter: self.shape_reader.iter_shapes_as::<S>(),
             record_iter: self.dbase_reader.iter_records_as::<R>(),
+            pending_error,
         }
     }
 
